@@ -5,9 +5,9 @@ from props import _lay
 
 LEVEL = "proof"
 MODULE = "Phil.Props.C01"
-LEVEL_TEXT = 'Lean theorems, all inputs: the closed print->parse->print round trip for attribute-free trees to any depth at every print width (print_tree, print_parse_tree(_exact/_nowrap), second_print_identical_tree; flat special case with exact lines), show_ignores_positions for arbitrary trees, the converter type round trip convFromExpr(render c) = c, the quoting round trip of every printed word (C03). The printer and parser models are tied to /repo by a correspondence run of show and parse on every generated case (levels 0/2/3, several widths); the oracle evaluates the property as stated on the implementation (parse -> print -> parse -> same tree incl. every attribute; second print byte-identical).'
-LEVEL_NOTE = 'Closed theorem covers attribute-free trees at level 0; attribute lines (levels 1-3) rest on per-stage theorems (show_attributes, assignment, type round trip) plus correspondence and oracle. Kernel-checked sharp edges = known findings D6, D7, D28. textwrap.wrap is modelled for tab-free text. Trusted: Lean kernel (+propext, Classical.choice, Quot.sound), the hand-written model being the code (checked by correspondence on every run, source-drift triggers a deeper pass).'
-TECHNIQUE = 'Lean 4 closed-form round-trip theorems on the printer/parser model + differential correspondence + round-trip oracle'
+LEVEL_TEXT = 'Lean theorems, all inputs: the closed print->parse->print round trip for trees to any depth at every print width, WITHOUT attributes (print_tree, print_parse_tree, second_print_identical_tree) and WITH attributes at every attributes level (print_tree_attrs, print_parse_tree_attrs, attribute_value_kept, second_print_identical_attrs; wrapped free text with whitespace runs: wrapped_runs_round_trip - equal up to whitespace runs -, second_print_identical_iff characterising finding D28), templates of fetch results (fetch_result_reparsed), show_ignores_positions for arbitrary trees, the converter type round trip convFromExpr(render c) = c, the quoting round trip of every printed word (C03); escape/quote are additionally REGENERATED from the Python source on every run and proved equal to the model (Props/Translated). The printer and parser models are tied to /repo by a correspondence run of show and parse on every generated case (levels 0/2/3, several widths); the oracle evaluates the property as stated on the implementation (parse -> print -> parse -> same tree incl. every attribute; second print byte-identical).'
+LEVEL_NOTE = 'Closed theorems cover enabled objects; disabled objects and a deprecated definition directly after a definition rest on correspondence and oracle. Kernel-checked sharp edges = known findings D6, D7, D28, D49. textwrap.wrap is modelled for tab-free text. Trusted: Lean kernel (+propext, Classical.choice, Quot.sound), the hand-written model being the code (checked by correspondence on every run; source drift triggers a deeper pass; leaf functions re-translated from the source).'
+TECHNIQUE = 'Lean 4 closed-form round-trip theorems (with attributes) on the printer/parser model + translated leaf functions + differential correspondence + round-trip oracle'
 RULE = ("documents from the layout grammar (all quote styles, multi-line strings, long values that wrap, every attribute kind, "
         "every built-in type with constructor arguments, dotted names, '!' marks) and mutated/soup documents that still parse, x "
         "attributes level {0,2,3} x print width {minimal, 30-ish, 79, 200}; plus small masters whose definitions carry generated "
